@@ -53,7 +53,10 @@ def seg(rng, cls, ivals, fvals):
         if k == "N": return "WN,%d" % rng.randint(-9, 99)          # a type without a Show instance (generic fallback text)
         return "W%s,%s" % (k, str(rng.choice(ivals)) if k == "I" else ("%016x" % rng.choice(fvals)) if k == "F" else h(rng.choice(STRS)))
     if cls == "showc":
-        k = rng.choice("ALTUDXR")
+        k = rng.choice("ALTUDXRVv")
+        if k in "Vv":         # a Slice over a keyed container: yields (and shows) the keys
+            ks = rng.sample(range(0, 12), rng.choice([0, 1, 3, 4]))
+            return "W%s,%s" % (k, ",".join("%d,%d" % (kk, 100 + kk) for kk in ks))
         n = rng.choice([0, 1, 3]) * (2 if k == "T" else 1)
         if k == "R":          # a Range: its values are 64-bit Ints (starts beyond 32 bits as well), ascending or descending
             st = rng.choice([0, -3, 2**31 - 2, -2**31 - 3, 2**32, 2**40 + 5, -2**45])
